@@ -16,6 +16,8 @@ C04  Genomic-model predictions are linear, label-preserving and self-consistent 
 """
 import ast
 
+from sa.ctorflow import wire
+
 from sa.astutil import is_guard, oriented, dump, where, kwargs_of, walk_no_nested, field_of
 from sa.model import body_nodoc, FuncInfo
 from sa.vn import VN, Poly, VNUnknown, comparable, parse_expr
@@ -724,3 +726,4 @@ def run(prog, rep, tier):
     check_forwarding(prog, rep)
     c09.check_exactness(prog, rep, tier, sink_filter=c09.NOT_SELECTION)
     check_rrblup(prog, rep)
+    wire(prog, rep, "C04", 1, 190)
